@@ -146,6 +146,10 @@ def suite_sigma(ctx, case):
         if not np.array_equal(want, got): ok = False; why = 'pair %s-%s: closure does not see U(sigma=%r)/kT' % (a, b, s)
         if p.sys.closure[a, b].sigma != (da + db) / 2.0: ok = False; why = 'closure contact distance of %s-%s is not the mean diameter' % (a, b)
         if p.sys.potential[a, b].sigma != s: ok = False; why = 'pair %s-%s: the potential evaluated has sigma=%r, not %r' % (a, b, p.sys.potential[a, b].sigma, s)
+    # the object's tables are symmetric: the pair looked up in the other order is the very same (configured) entry
+    for (a, b) in (('B', 'A'),):
+        if p.sys.potential[a, b] is not p.sys.potential[b, a] or p.sys.closure[a, b] is not p.sys.closure[b, a] or p.sys.potential[a, b].sigma is None or p.sys.closure[a, b].potential is None:
+            ok = False; why = 'pair %s-%s looked up in the other order is not the configured entry (sigma %r)' % (a, b, p.sys.potential[a, b].sigma)
     if sys_.potential['A', 'A'].sigma is not None or sys_.closure['A', 'A'].potential is not None:
         ok = False; why = 'createPRISM wrote sigma/potential into the System\'s own objects'
     ctx.pred('sigma', case, ok, why, key='C10:sigma-default')
